@@ -363,6 +363,8 @@ const eabKID = "eab-kid-verif-1"
 
 var eabKey = []byte("verif external account binding hmac key 0123456789")
 
+var runNo int
+
 type runResult struct {
 	target *parsed // the request of the operation itself
 	zr, zs int
@@ -374,6 +376,8 @@ func runOnce(c *jcase, spec acmefake.OpSpec, key, acctDefault crypto.Signer) run
 	var rr runResult
 	s := acmefake.NewServer()
 	s.Capture = true
+	runNo++
+	s.SetNonceBase(1 + runNo*16)
 	s.Choose = func(op *acmefake.Op, head bool, url string) string {
 		if head {
 			return "nonce"
@@ -474,7 +478,7 @@ func TestJWS(t *testing.T) {
 			t.Fatal(err)
 		}
 	}()
-	maxTries := 60000
+	maxTries := 20000
 	searchStats := map[string]int{}
 	sigCount := map[string]int{}
 	acctDefault, _ := ecdsa.GenerateKey(elliptic.P256(), rand.Reader)
